@@ -49,6 +49,7 @@ pub const EV_AFTER_FORK_RETURN: u32 = 1025;
 pub const EV_ALLOC_CALL: u32 = 1026; // a=mutator, b=size, c=options bits
 pub const EV_ALLOC_RETURN: u32 = 1027; // a=mutator, b=addr
 pub const EV_ENQUEUE_REFS: u32 = 1028;
+pub const EV_PR_SNAPSHOT: u32 = 1029; // a=page resource id, b=reserved pages, c=committed pages
 
 #[derive(Default)]
 pub struct Counters {
@@ -486,6 +487,11 @@ pub fn resume_mutators(_tls: VMWorkerThread) {
     // All GC work of this pause is done and every mutator is still parked: quiescent point.
     crate::shadow::on_pause_end();
     check_heap_size("pause-end");
+    if w.cfg.log_events {
+        for s in mmtk::verif::space_table(w.mmtk) {
+            emit(EV_PR_SNAPSHOT, s.pr_id as u64, s.reserved_pages as u64, s.committed_pages as u64);
+        }
+    }
     w.stw.store(false, Ordering::SeqCst);
     let mut g = w.sp.lock().unwrap();
     if !g.stop_requested {
